@@ -82,11 +82,31 @@ Proof.
   assert (8 * 2 ^ 61 = 2 ^ 64) by reflexivity. nia.
 Qed.
 
+(** the fields of the saturated answers are packed without loss by `extended_to_float` *)
+Lemma etf_zero f b : rfmt_ok f = true -> extended_to_float f b bfp_zero = Ok (pack f bfp_zero).
+Proof.
+  intros Hr. apply (extended_to_float_fields f Hr b bfp_zero).
+  destruct (rfmt_ok_props f Hr) as [Pms Pew _ _ _ _ Pinf _ _ _ _].
+  pose proof (pow2_le 2 (ewidth f) ltac:(lia)) as H. change (2 ^ 2) with 4 in H.
+  pose proof (pow2_pos (MANTISSA_SIZE f) ltac:(lia)).
+  unfold fields_shape, bfp_zero. cbn [mant exp]. repeat split; intros; lia.
+Qed.
+
+Lemma etf_inf f b : rfmt_ok f = true -> extended_to_float f b (bfp_inf f) = Ok (pack f (bfp_inf f)).
+Proof.
+  intros Hr. apply (extended_to_float_fields f Hr b (bfp_inf f)).
+  destruct (rfmt_ok_props f Hr) as [Pms Pew _ _ _ _ Pinf _ _ _ _].
+  pose proof (pow2_le 2 (ewidth f) ltac:(lia)) as H. change (2 ^ 2) with 4 in H.
+  pose proof (pow2_pos (MANTISSA_SIZE f) ltac:(lia)).
+  unfold fields_shape, bfp_inf. cbn [mant exp]. repeat split; intros; lia.
+Qed.
+
 (** ** the theorem *)
-Theorem bellerophon_sound : forall f b w q t, bell_ok f = true ->
+Theorem bellerophon_sound_strong : forall f b w q t, bell_ok f = true ->
   0 <= w < 2 ^ 64 -> - 2 ^ 31 <= q < 2 ^ 31 -> (t = true -> 2 ^ 40 <= w) ->
   exists fp, bellerophon BTABLES f b (mkNumber q w t) = Ok fp /\
    (0 <= exp fp ->
+      extended_to_float f b fp = Ok (pack f fp) /\
       forall v : Q, (if t then (inject_Z w * pow10Q q <= v /\ v < inject_Z (w + 1) * pow10Q q)%Q
                      else (v == inject_Z w * pow10Q q)%Q) ->
       RN f v = pack f fp).
@@ -101,7 +121,8 @@ Proof.
   (* 1. zero significand *)
   destruct (Z.eq_dec w 0) as [Hw0|Hw0].
   { exists bfp_zero. split; [apply bellerophon_zero_exit; [lia|left; exact Hw0]|].
-    intros _ v Hv. apply value_R in Hv. destruct t; [specialize (Ht eq_refl); lia|].
+    intros _. split; [apply etf_zero; exact Hr|]. intros v Hv.
+    apply value_R in Hv. destruct t; [specialize (Ht eq_refl); lia|].
     subst w. rewrite Rmult_0_l in Hv.
     unfold pack, bfp_zero. cbn [mant exp]. rewrite Z.mul_0_l, Z.lor_0_l.
     apply RN_zero_R; try assumption. rewrite Hv. split; [lra|apply bpow_ge_0]. }
@@ -121,7 +142,7 @@ Proof.
   (* 2. below the table: zero *)
   destruct (Z_lt_ge_dec (q + BIAS) 0) as [Hlow|Hlow].
   { exists bfp_zero. split; [apply bellerophon_zero_exit; [lia|right; exact Hlow]|].
-    intros _ v Hv. apply value_R in Hv. apply Hxw in Hv.
+    intros _. split; [apply etf_zero; exact Hr|]. intros v Hv. apply value_R in Hv. apply Hxw in Hv.
     unfold pack, bfp_zero. cbn [mant exp]. rewrite Z.mul_0_l, Z.lor_0_l.
     apply RN_zero_R; try assumption. fold B.
     pose proof (bpow_gt_0 r10 q) as P10. split; [lra|].
@@ -132,6 +153,7 @@ Proof.
       pose proof (bpow_opp_mul r10 (BIAS + 1)) as I1. pose proof (bpow_opp_mul radix2 B) as I2.
       pose proof (bpow_gt_0 r10 (- (BIAS + 1))) as Q1. pose proof (bpow_gt_0 radix2 (- B)) as Q2.
       pose proof (bpow_gt_0 radix2 B) as Q3. pose proof c64_pos as Q4.
+      pose proof (bpow_gt_0 r10 (BIAS + 1)) as Q0.
       set (a := bpow r10 (BIAS + 1)) in *. set (a' := bpow r10 (- (BIAS + 1))) in *.
       set (d := bpow radix2 B) in *. set (d' := bpow radix2 (- B)) in *.
       (* c64 * d <= a  ->  c64 * a' <= d' *)
@@ -143,7 +165,7 @@ Proof.
   { assert (Hex : NLARGE * STEP <= q + BIAS).
     { unfold lidx in Hhigh. pose proof (Z.mul_div_le (q + BIAS) STEP ltac:(lia)). nia. }
     exists (bfp_inf f). split; [apply bellerophon_inf_exit; [lia|exact Hw0|exact Hex]|].
-    intros _ v Hv. apply value_R in Hv. apply Hxw in Hv.
+    intros _. split; [apply etf_inf; exact Hr|]. intros v Hv. apply value_R in Hv. apply Hxw in Hv.
     unfold pack, bfp_inf. cbn [mant exp]. rewrite Z.lor_0_l.
     rewrite (RN_inf_R f v Hs).
     - unfold RoundFacts.inf_bits. rewrite Pinf. reflexivity.
@@ -152,8 +174,9 @@ Proof.
         rewrite IZR_pow2 in Hover; [exact Hover|]. unfold emax. apply Z.lt_le_incl, pow2_pos. lia.
       + eapply Rle_trans; [|apply Hv]. apply bpow_le. lia. }
   (* 4. inside the table *)
+  apply Z.ge_le in Hlow. apply Z.gt_lt in Hhigh.
   assert (Hw' : 0 < w < 2 ^ 64) by lia.
-  pose proof (bellerophon_core f b q w t Hbf Hw' Hlow Hhigh) as Hcore. cbv zeta in Hcore.
+  pose proof (bellerophon_core f b q w t Hbf Hw' Hlow Hhigh) as Hcore. cbv zeta in Hcore. fold B in Hcore.
   destruct (index_facts q Hlow Hhigh) as (Hsi & Hli & Hqe).
   destruct (stage2_range q w Hw' Hsi Hli) as [Hx3 He3].
   pose proof (errs_range q w t Hw') as Herr.
@@ -201,28 +224,42 @@ Proof.
       + apply Rmult_le_compat_r; [apply bpow_ge_0|]. rewrite <- IZR_pow2 by lia. apply IZR_le. lia.
       + rewrite <- bpow_plus. apply bpow_le. lia. }
   destruct (65 <? 1 - e5) eqn:E1.
-  { exists bfp_zero. split; [exact Hcore|]. intros _ v Hv.
+  { exists bfp_zero. split; [exact Hcore|]. intros _. split; [apply etf_zero; exact Hr|]. intros v Hv.
     unfold pack, bfp_zero. cbn [mant exp]. rewrite Z.mul_0_l, Z.lor_0_l.
-    apply (Hzero v 65); try assumption; try lia.
-    change (2 ^ 65) with (2 * 2 ^ 64). lia. }
+    apply (Hzero v 65); try assumption; try lia. }
   destruct (negb (acc f err M e5)) eqn:E2.
   { exists (mkExt M (e5 + INVALID_FP f)). split; [exact Hcore|]. cbn [exp]. intros Hneg. exfalso.
     unfold e5 in Hneg. lia. }
   apply negb_false_iff in E2.
   destruct (1 - e5 =? 65) eqn:E3.
-  { exists bfp_zero. split; [exact Hcore|]. intros _ v Hv.
+  { exists bfp_zero. split; [exact Hcore|]. intros _. split; [apply etf_zero; exact Hr|]. intros v Hv.
     unfold pack, bfp_zero. cbn [mant exp]. rewrite Z.mul_0_l, Z.lor_0_l.
     assert (Ee5 : e5 = - 64) by lia.
     unfold acc in E2. cbv zeta in E2. unfold bshift in E2. rewrite Ee5 in E2.
     replace (-64 <=? - (63 - MANTISSA_SIZE f)) with true in E2 by lia.
     change (64 <? 1 - -64) with true in E2. cbv iota in E2.
     apply (Hzero v 64); try assumption; lia. }
-  exists (round_spec f (rnd_ne M) e5). split; [exact Hcore|]. intros _ v Hv.
+  exists (round_spec f (rnd_ne M) e5). split; [exact Hcore|]. intros _. split.
+  { destruct (round_ne_packed_Z f Hr b M e5 HM ltac:(lia)) as (_ & G & _). exact G. }
+  intros v Hv.
   change (pack f (round_spec f (rnd_ne M) e5)) with (res f M e5).
   apply (band_RN f err (2 ^ s4) M e5 v); try assumption; try lia.
   - unfold err. nia.
   - pose proof (pow2_le 5 (63 - MANTISSA_SIZE f) ltac:(lia)) as H5. change (2 ^ 5) with 32 in H5. lia.
   - pose proof (Hbound v Hv) as [G1 G2]. fold M in G1, G2. split; [exact G1|exact G2].
+Qed.
+
+Theorem bellerophon_sound : forall f b w q t, bell_ok f = true ->
+  0 <= w < 2 ^ 64 -> - 2 ^ 31 <= q < 2 ^ 31 -> (t = true -> 2 ^ 40 <= w) ->
+  exists fp, bellerophon BTABLES f b (mkNumber q w t) = Ok fp /\
+   (0 <= exp fp ->
+      forall v : Q, (if t then (inject_Z w * pow10Q q <= v /\ v < inject_Z (w + 1) * pow10Q q)%Q
+                     else (v == inject_Z w * pow10Q q)%Q) ->
+      RN f v = pack f fp).
+Proof.
+  intros f b w q t Hok Hw Hq Ht.
+  destruct (bellerophon_sound_strong f b w q t Hok Hw Hq Ht) as (fp & H1 & H2).
+  exists fp. split; [exact H1|]. intros He. exact (proj2 (H2 He)).
 Qed.
 
 (** ** examples *)
@@ -241,19 +278,47 @@ Proof. vm_compute. reflexivity. Qed.
 
 (** the hypotheses of the theorem are satisfiable, exact and truncated *)
 Example bellerophon_sound_ex1 :
-  exists fp, bellerophon BTABLES F64 checked_build (mkNumber (-3) 123456789 false) = Ok fp /\
-    0 <= exp fp /\ RN F64 (inject_Z 123456789 * pow10Q (-3)) = pack F64 fp.
+  bellerophon BTABLES F64 checked_build (mkNumber (-3) 123456789 false) = Ok (mkExt 3980286312216265 1039) /\
+  RN F64 (inject_Z 123456789 * pow10Q (-3)) = pack F64 (mkExt 3980286312216265 1039).
 Proof.
-  destruct (bellerophon_sound F64 checked_build 123456789 (-3) false bell_ok_F64) as (fp & H1 & H2);
-    try (vm_compute; split; congruence). { intros; discriminate. }
-  exists fp. split; [exact H1|].
-  assert (E : Ok fp = Ok (mkExt 4121018769491788 1039)) by (rewrite <- H1; vm_compute; reflexivity).
-  injection E as ->. split; [cbn [exp]; lia|]. apply H2; [cbn [exp]; lia|reflexivity].
+  assert (E : bellerophon BTABLES F64 checked_build (mkNumber (-3) 123456789 false)
+              = Ok (mkExt 3980286312216265 1039)) by (vm_compute; reflexivity).
+  split; [exact E|].
+  destruct (bellerophon_sound F64 checked_build 123456789 (-3) false bell_ok_F64) as (fp & H1 & H2).
+  - vm_compute. split; congruence.
+  - vm_compute. split; congruence.
+  - intros; discriminate.
+  - rewrite E in H1. injection H1 as <-. apply H2; [cbn [exp]; lia|reflexivity].
 Qed.
 
-Example bellerophon_sound_ex2 :
-  bell_ok F32 = true /\ 0 <= 10 ^ 18 + 7 < 2 ^ 64 /\ 2 ^ 40 <= 10 ^ 18 + 7 /\
-  bellerophon BTABLES F32 release_build (mkNumber 5 (10 ^ 18 + 7) true) = Ok (mkExt 3633130 203).
-Proof. repeat split; vm_compute; congruence. Qed.
+(** a truncated 19-digit significand: every real the dropped digits could stand for rounds alike *)
+Example bellerophon_sound_ex2 : forall v : Q,
+  (inject_Z (10 ^ 18 + 1234567) * pow10Q 5 <= v /\ v < inject_Z (10 ^ 18 + 1234567 + 1) * pow10Q 5)%Q ->
+  RN F64 v = pack F64 (mkExt 1456864850175925 1099).
+Proof.
+  intros v Hv.
+  assert (E : bellerophon BTABLES F64 release_build (mkNumber 5 (10 ^ 18 + 1234567) true)
+              = Ok (mkExt 1456864850175925 1099)) by (vm_compute; reflexivity).
+  destruct (bellerophon_sound F64 release_build (10 ^ 18 + 1234567) 5 true bell_ok_F64) as (fp & H1 & H2).
+  - vm_compute. split; congruence.
+  - vm_compute. split; congruence.
+  - intros _. vm_compute. congruence.
+  - rewrite E in H1. injection H1 as <-. apply H2; [cbn [exp]; lia|exact Hv].
+Qed.
 
+Example bell_F32_ex :
+  bellerophon BTABLES F32 release_build (mkNumber 5 (10 ^ 18 + 7) true) = Ok (mkExt 2713622 203).
+Proof. vm_compute. reflexivity. Qed.
+
+(** why the theorem asks [2^40 <= w] for a truncated significand: the cap [min (lz + 1) 24] on the
+    truncation count under-counts for shorter significands (never produced by the crate's own
+    parser, whose truncated significands have 19 digits).  With [w = 1] the dropped digits can
+    stand for anything in [[1, 2)], yet the answer 1.0 is reported as definite. *)
+Example small_truncated_corner :
+  bellerophon BTABLES F32 checked_build (mkNumber 0 1 true) = Ok (mkExt 0 127) /\
+  (inject_Z 1 * pow10Q 0 <= 3 # 2 /\ 3 # 2 < inject_Z (1 + 1) * pow10Q 0)%Q /\
+  RN F32 (3 # 2) <> pack F32 (mkExt 0 127).
+Proof. split; [vm_compute; reflexivity|]. split; [split; vm_compute; congruence|vm_compute; congruence]. Qed.
+
+Print Assumptions bellerophon_sound_strong.
 Print Assumptions bellerophon_sound.
